@@ -36,6 +36,11 @@ Script ==
     \* the same actor updates a key twice around a concurrent remove that saw only the first update
     [] ScriptName = "update_rm_update" ->
          << <<"gen", 1, Up(1)>>, <<"dlv", 2, 1>>, <<"gen", 2, [c |-> "rm", k |-> 1]>>, <<"gen", 1, Up(1)>> >>
+    \* depth 2: an inner key-remove whose context names two actors is pending inside the nested map while the
+    \* outer key is partially removed (the nested reset_remove must keep the pending remove, reduced)
+    [] ScriptName = "inner_pending_partial" ->
+         << <<"gen", 1, Up(1)>>, <<"gen", 2, Up(1)>>, <<"gen", 2, [c |-> "rm", k |-> 1]>>,
+            <<"dlv", 3, 1>>, <<"dlv", 3, 2>>, <<"gen", 3, [c |-> "up", k |-> 1, sub |-> [c |-> "rm", k |-> 1]]>> >>
 ScriptInit == InitAfter(Script)
 
 \* JSON-friendly renderings: partial functions over Keys become total sequences of 0/1-element tuples
